@@ -574,6 +574,8 @@ func init() {
 		// ---- (1) generated tries
 		n := c.N(700, 4000)
 		bodies := [][]byte{}
+		var prevBuf, prevCopy []byte
+		var prevTC *TrieCase
 		for i := 0; i < n; i++ {
 			scale := 1
 			if c.Thorough() && i%4 == 0 {
@@ -611,6 +613,12 @@ func init() {
 				violate("C05:marshal-error", "Marshal returns an error: "+err.Error(), tc, err.Error(), "bytes")
 				continue
 			}
+			// a stream handed out earlier belongs to the caller: marshalling ANOTHER trie must not
+			// change it (it is loaded later, e.g. after being written to a file)
+			if prevBuf != nil && !bytes.Equal(prevBuf, prevCopy) {
+				violate("C05:stream-changed-by-later-marshal", "the bytes returned by an earlier Marshal() changed when another trie was marshalled; the earlier stream no longer round-trips", prevTC, hx(prevBuf), hx(prevCopy))
+			}
+			prevBuf, prevCopy, prevTC = buf, append([]byte{}, buf...), tc
 			live := st.VerifInner()
 			if live.ShortSize > 0 {
 				c.Or.Count("shape:short-table")
